@@ -11,6 +11,7 @@ import GcpVerif.Driver.Checksum
 import GcpVerif.Driver.KeyPath
 import GcpVerif.Driver.Prober
 import GcpVerif.Driver.Config
+import GcpVerif.Driver.Stream
 open GcpVerif.Driver
 
 structure DrvState where
@@ -18,7 +19,9 @@ structure DrvState where
   me : MEDrv.Sess := {}
   pool : PoolDrv.Sess := {}
   pb : PbDrv.Sess := {}
-  deriving Inhabited
+  st : Option GcpVerif.Stream.St := none
+
+instance : Inhabited DrvState := ⟨{}⟩
 
 def handleLine (st : DrvState) (ln : Nat) (line : String) : DrvState :=
   let (opPart, obs) := splitArrow line
@@ -32,6 +35,9 @@ def handleLine (st : DrvState) (ln : Nat) (line : String) : DrvState :=
   | "pb" :: toks =>
     let (sess, rep) := PbDrv.handle st.pb { st.rep with lines := st.rep.lines + 1 } ln toks obs
     { st with pb := sess, rep := rep }
+  | "st" :: toks =>
+    let (sess, rep) := StDrv.handle st.st { st.rep with lines := st.rep.lines + 1 } ln toks obs
+    { st with st := sess, rep := rep }
   | "cfg" :: toks =>
     { st with rep := CfgDrv.handle { st.rep with lines := st.rep.lines + 1 } ln toks obs }
   | "kp" :: toks =>
